@@ -151,6 +151,7 @@ type FuncVerifier struct {
 	siteOcc map[string]int
 	pendingAsserts []string
 	letVars        map[string]*types.Var // ghost snapshots bound by let directives
+	pendingWB      []arrayWB             // array views taken by the current statement, written back at its end
 	stmtSites      map[ast.Stmt]string   // statements addressed by let directives (key = structural path, e.g. if#1)
 }
 
